@@ -1,6 +1,6 @@
 """C02 — TCP tunnel relays bytes exactly: scripted endpoints on the real DuplexPipe vs the timed model."""
 from run_check import Case
-from vlib import untok
+from vlib import line, untok
 from props import pipegen as g
 
 TRUSTED_BASE = [
@@ -29,7 +29,23 @@ def gen_cases(rng, ctx):
         l = g.mk_line(toks)
         nontriv = any(w not in (g.ALL,) for w in toks[2] + toks[7]) or 2 in toks[1][0::3] or 3 in toks[1][0::3]
         cases.append(Case(l, l, kind="relay", nontrivial=bool(nontriv), meta={"toks": toks}))
+    # whole tunnels through the real endpoint (Core::listen on a loopback port) to an echo server: HTTP/1.1 and HTTP/2 over
+    # TLS, HTTP/3 over QUIC; the echo server may read slowly (back-pressure through the endpoint's flow control)
+    sizes = [(0, 1), (1, 1), (5, 1), (1000, 100), (65536, 4096), (100000, 1000), (300000, 50000), (1000000, 16384)]
+    if thorough:
+        sizes += [(3000000, 65536), (1000000, 1), (16384, 16384), (16385, 16385)]
+    for proto in (1, 2, 3):
+        for total, w in sizes:
+            if w == 1 and total > 100000:
+                continue
+            slow = 1 if total >= 100000 and total % 3 == 0 else 0
+            li = line("c02_front", [[proto, total, w, slow]])
+            cases.append(Case(li, None, kind="endpoint:tunnel-h%d" % proto, nontrivial=total > 0,
+                              meta={"front": True, "proto": proto, "total": total, "w": w, "slow": slow}))
     return cases
+
+
+RETRY_PREFIX = "endpoint:"
 
 
 def expected_total(reads):
@@ -39,6 +55,21 @@ def expected_total(reads):
 def judge(case, impl, model, spec, ctx):
     if impl == "999":
         return [("violation", "the pipe panicked")]
+    if case.meta.get("front"):
+        if impl == "996":
+            ctx.setdefault("skipped_env", []).append(case.kind)
+            return []
+        m = case.meta
+        status, got, same, diff, clean = untok(impl.split()[0])
+        what = "HTTP/%d tunnel through the real endpoint to an echo server%s, %d bytes written %d at a time" % (
+            m["proto"], " that reads slowly" if m["slow"] else "", m["total"], m["w"])
+        if status != 200:
+            return [("disagree", "%s: CONNECT answered %d" % (what, status))]
+        if not same:
+            return [("violation", "%s: %d bytes came back, the first difference is at byte %d" % (what, got, diff))]
+        if not clean:
+            return [("violation", "%s: all bytes came back, but the end of the client's stream was not answered with a clean end of the tunnel" % what)]
+        return []
     out = []
     t = impl.split()
     res = untok(t[0])
